@@ -59,24 +59,23 @@ def has_tie(parsed):
 
 
 def local_tie(parsed_a, parsed_b, label, inv, prop):
-    """do the alternatives of ONE constraint (shape, direction, property) tie in count, in either run?"""
+    """do the alternatives of ONE constraint (shape, direction, property) tie in count?  The alternatives printed by the two runs
+    are put together: of two tied alternatives each run prints only the one it chose, so the tie shows in the union only."""
+    alts = {}
     for parsed in (parsed_a, parsed_b):
         for sh in parsed['shapes']:
             if sh['label'] != label:
                 continue
-            alts = {}
             for st in sh['stmts']:
                 if st['inv'] != inv or st['prop'] != prop:
                     continue
                 if st['n'] is not None and st['has_fig'] and len(st['types']) == 1:
-                    alts[(st['types'][0], st['card'])] = st['n']
+                    alts.setdefault((st['types'][0], st['card']), st['n'])
                 for cm in st['comments']:
                     if 'example' not in cm and cm['n'] is not None:
                         alts.setdefault((cm['ty'], cm['card']), cm['n'])
-            ns = list(alts.values())
-            if len(ns) != len(set(ns)):
-                return True
-    return False
+    ns = [n for (ty, card), n in alts.items()]
+    return len(ns) != len(set(ns))
 
 
 def tie_explained(ev0, ev):
@@ -218,6 +217,8 @@ def run(ctx):
             if ev != ev0:
                 d = {lab: (sorted(map(repr, ev0.get(lab, (None, set()))[1] ^ ev.get(lab, (None, set()))[1]))[:6]) for lab in set(ev) | set(ev0)
                      if ev.get(lab) != ev0.get(lab)}
+                differing = {(lab, f[0], f[1]) for lab in set(ev) | set(ev0) for f in ev0.get(lab, (None, set()))[1] ^ ev.get(lab, (None, set()))[1]}
+                tie = tie or all(local_tie(r0[1], r[1], lab, inv_, prop_) for lab, inv_, prop_ in differing)
                 obs = {"kind": "evidence", "diff": d, "cfg": cfg, "triples": g, "variant": gv, "tie": tie}
                 fid = F.match(kf, obs)
                 if fid:
